@@ -45,6 +45,9 @@ impl Mock {
     }
 }
 
+/// what a mock transport does once a connection has read an exhausted stream 100 000 times (see Read for Mock)
+pub static SPIN_EXITS: std::sync::atomic::AtomicBool = std::sync::atomic::AtomicBool::new(false);
+
 impl Read for Mock {
     fn read(&mut self, buf: &mut [u8]) -> std::io::Result<usize> {
         let reads = {
@@ -55,7 +58,14 @@ impl Read for Mock {
         // a connection that keeps reading an exhausted transport is spinning: no client can end it.
         // The process leaves with a code the parent records as outcome "hang" (no Conn action).
         if reads > 100_000 {
-            std::process::exit(97);
+            if SPIN_EXITS.load(std::sync::atomic::Ordering::SeqCst) {
+                std::process::exit(97); // conn-child: the parent records outcome "hang" and restarts after this case
+            }
+            // elsewhere (the pool legs): the worker running this connection never comes back, which is what the
+            // trace must show; park instead of burning a core
+            loop {
+                std::thread::sleep(std::time::Duration::from_secs(3600));
+            }
         }
         if self.read_error {
             return Err(std::io::Error::new(std::io::ErrorKind::ConnectionReset, "scripted read error"));
